@@ -4,6 +4,7 @@ package props
 
 import (
 	"encoding/json"
+	"errors"
 	"fmt"
 	"reflect"
 
@@ -13,6 +14,10 @@ import (
 	"verif/internal/kinds"
 	"verif/internal/ref"
 )
+
+var errInjectedLoad = errors.New("injected load fault")
+
+func mastPersist(p mast.Persist) mast.Persist { return p }
 
 var (
 	bfSet    = []uint{2, 3, 4, 5, 7, 16, 64}
@@ -77,10 +82,18 @@ type Driver struct {
 	oldRoots  []*mast.Root
 	oldModels []*kinds.Model
 	WReopen   int
-	lowTarget int
-	hiTarget  int
-	growing   bool
-	fullEvery int
+	// WFault > 0 mixes in modifications during which one Load fails; if the
+	// operation reports the error the model is re-synchronised from the tree
+	// (what a failed operation must leave behind is C12's subject, not ours)
+	WFault int
+	// AfterFailedShrink: a Delete that had to lower the height reported an injected
+	// fault (recorded finding D14: the delete is applied, the shrink is not) - from
+	// then on the tree may be taller than canonical
+	AfterFailedShrink bool
+	lowTarget         int
+	hiTarget          int
+	growing           bool
+	fullEvery         int
 	// weights may be tuned by the embedding monitor
 	WPersist, WReload, WClone int
 }
@@ -244,6 +257,7 @@ func (d *Driver) Step() {
 		{wDel, d.OpDeletePresent}, {3, d.OpDeleteAbsent}, {3, d.OpDeleteWrong},
 		{6, d.OpGetPresent}, {5, d.OpGetAbsent}, {2, d.OpIter},
 		{d.WClone, d.OpCloneSwitch}, {d.WPersist, d.OpPersist}, {d.WReload, d.OpReload}, {d.WReopen, d.OpReopenOld},
+		{d.WFault, d.OpFaulted},
 	}
 	tot := 0
 	for _, o := range ops {
@@ -513,6 +527,83 @@ func (d *Driver) OpReopenOld() {
 	d.M = d.oldModels[i].Clone()
 	d.HadReload = true
 	d.C.Obs("op_reopen_old", 1)
+}
+
+// OpFaulted performs an insert, update or delete while the k-th Load from now
+// fails (k in 1..6). The history goes on whatever the outcome: after a
+// reported error the model is rebuilt from a full iteration of the tree.
+func (d *Driver) OpFaulted() {
+	if d.E.Store == nil || d.E.Persist != mastPersist(d.E.Store) {
+		return
+	}
+	target := d.R.Range(1, 6)
+	hit := false
+	n := 0
+	d.E.Store.FailLoad = func(int, string) error {
+		n++
+		if n == target {
+			hit = true
+			return errInjectedLoad
+		}
+		return nil
+	}
+	var err error
+	var apply func()
+	switch x := d.R.Intn(3); {
+	case x == 0 || d.M.Len() == 0:
+		k, ok := d.absentKey()
+		if !ok {
+			d.E.Store.FailLoad = nil
+			return
+		}
+		v := d.E.VK.Gen(d.R)
+		d.log("insert %v=%v with Load #%d failing", k, v, target)
+		err = d.T.Insert(d.E.Ctx, k, v)
+		apply = func() { d.M.Put(k, v) }
+	case x == 1 && !d.E.VK.Single:
+		k, v, _ := d.presentKey()
+		nv := d.diffVal(v)
+		d.log("update %v=%v with Load #%d failing", k, nv, target)
+		err = d.T.Insert(d.E.Ctx, k, nv)
+		apply = func() { d.M.Put(k, nv) }
+	default:
+		k, v, _ := d.presentKey()
+		d.log("delete %v with Load #%d failing", k, target)
+		err = d.T.Delete(d.E.Ctx, k, deepCopy(v))
+		apply = func() { d.M.Del(k); d.HadDelete = true }
+	}
+	d.E.Store.FailLoad = nil
+	d.C.Obs("op_with_injected_load_fault", 1)
+	if err == nil {
+		apply()
+		return
+	}
+	if !hit {
+		d.fail("faulted_op", nil, "operation failed although the injected fault was not reached: %v", err)
+		return
+	}
+	d.C.Obs("op_failed_by_injected_fault", 1)
+	hBefore := int(d.T.Height())
+	keys, vals, derr := kinds.Dump(d.E.Ctx, d.T)
+	if derr != nil {
+		d.Failed = true // the tree is unusable after the failed call: C12 judges that
+		d.C.Obs("aborted_tree_unusable_after_fault", 1)
+		return
+	}
+	m := kinds.NewModel(d.E.KK)
+	for i := range keys {
+		m.Put(keys[i], vals[i])
+	}
+	if m.Len() != len(keys) || d.T.Size() != uint64(len(keys)) {
+		d.Failed = true // duplicate keys / size off after the failed call: C12's subject
+		d.C.Obs("aborted_tree_inconsistent_after_fault", 1)
+		return
+	}
+	d.M = m
+	if ref.Height(m.Len(), m.MaxLayer(d.E.BF), int(d.E.BF)) < hBefore {
+		d.AfterFailedShrink = true
+		d.C.Obs("failed_ops_leaving_tree_too_tall", 1)
+	}
 }
 
 func deepCopy(v interface{}) interface{} {
